@@ -131,11 +131,15 @@ func passwordSendSites(p *Prog) ([]guardSite, int) {
 }
 
 func rulePasswordSends(p *Prog, r *Report) {
-	r.rule("R17.3", "A password is typed into a console session only at audited places: every call that passes a password (result of GetUserPass / ReadPassword, Config.Password, or a parameter that receives one) to a console send (Send, SendCmd, IssueCmd, GetCmdOutput; directly or through a function or closure whose parameter reaches one) lies at a function+site with rows in tables/guards.tsv, and its controlling conditions are the audited ones (the device has asked for a password: the login dialogue has just matched a password prompt, or the previous answer ends in `password:`). A password typed at a command prompt is echoed by the device and recorded in the session log.")
+	rulePasswordSendsFor(p, r, "R17.3", "C17", "A password is typed into a console session only at audited places: every call that passes a password (result of GetUserPass / ReadPassword, Config.Password, or a parameter that receives one) to a console send (Send, SendCmd, IssueCmd, GetCmdOutput; directly or through a function or closure whose parameter reaches one) lies at a function+site with rows in tables/guards.tsv, and its controlling conditions are the audited ones (the device has asked for a password: the login dialogue has just matched a password prompt, or the previous answer ends in `password:`). A password typed at a command prompt is echoed by the device and recorded in the session log.")
+}
+
+func rulePasswordSendsFor(p *Prog, r *Report, rule, prop, text string) {
+	r.rule(rule, text)
 	sites, nSend := passwordSendSites(p)
 	have := map[string]bool{}
 	for _, row := range readTable("guards.tsv", 5) {
-		if propListed(row[3], "C17") {
+		if propListed(row[3], prop) {
 			have[row[0]+"|"+row[1]] = true
 		}
 	}
@@ -146,12 +150,12 @@ func rulePasswordSends(p *Prog, r *Report) {
 			continue
 		}
 		seen[k] = true
-		r.add("R17.3", "password-send-audited|"+k, p.ipos(gs.In), "the conditions under which "+fnDisplay(gs.Fn)+" types a password into the session ("+gs.Name+") are audited", have[k],
+		r.add(rule, "password-send-audited|"+k, p.ipos(gs.In), "the conditions under which "+fnDisplay(gs.Fn)+" types a password into the session ("+gs.Name+") are audited", have[k],
 			"a password is sent to the device at a place that was never audited: if the device is not at a password prompt it echoes the password into the session log")
 	}
-	r.floor("R17.3", "places that type a password into a console session", len(sites), 3)
-	r.note("R17.3: %d console send sites examined, %d pass a password", nSend, len(sites))
-	ruleGuardTable(p, r, "R17.3", "C17")
+	r.floor(rule, "places that type a password into a console session", len(sites), 3)
+	r.note(rule+": %d console send sites examined, %d pass a password", nSend, len(sites))
+	ruleGuardTable(p, r, rule, prop)
 	_ = fmt.Sprint
 }
 
